@@ -39,7 +39,8 @@ BLOCK_NAMES = ["div", "p", "section", "ul", "li", "h1", "table", "tr", "td", "fo
 INLINE_NAMES = ["span", "a", "b", "i", "em", "strong", "code", "small", "sub", "label", "q", "kbd"]
 
 ATTR_NAMES = ["id", "class", "style", "href", "title", "data-x", "data-a-b", "aria-label", "x:y", "@click",
-              ":bind", "v-on.stop", "_u", "A", "onclick", "value", "name", "lang", "dir", "role"]
+              ":bind", "v-on.stop", "_u", "A", "a", "onclick", "value", "name", "lang", "dir", "role", "viewBox", "viewbox", "Data-X", "aria-hidden",
+              "aria-checked", "hidden"]
 
 # ------------------------------------------------------------------ text classes
 META = "&<>\"';#\r\n"
@@ -147,7 +148,40 @@ class HTMLSub(ht.HTML):
     """An HTML subclass: still trusted markup."""
 
 
-HARNESS_DOUBLES = (ReprObj, TF, TFObj)
+class TFStr(str):
+    """A str subclass that is also tagifiable (expands to its payload)."""
+
+    def __new__(cls, payload_recipes, ret):
+        o = super().__new__(cls, "unexpanded-tfstr")
+        o.payload_recipes, o.ret = payload_recipes, ret
+        return o
+
+    def tagify(self):
+        return TF(self.payload_recipes, self.ret).tagify()
+
+
+class LazyMeta(ht.MetadataNode):
+    """A metadata node that is also tagifiable (a lazily resolved dependency)."""
+
+    def __init__(self, payload_recipes, ret):
+        self.payload_recipes, self.ret = payload_recipes, ret
+
+    def tagify(self):
+        return TF(self.payload_recipes, self.ret).tagify()
+
+
+class FlakyTF(TF):
+    """Tagifiable whose first tagify() call fails; later calls succeed."""
+
+    def tagify(self):
+        self.calls += 1
+        if self.calls == 1:
+            raise RuntimeError("transient failure in tagify()")
+        self.calls -= 1
+        return super().tagify()
+
+
+HARNESS_DOUBLES = (ReprObj, TF, TFObj, LazyMeta)
 
 _SHARED = {}
 
@@ -219,6 +253,12 @@ def _build(r):
     if k == "headc":
         return ht.head_content(*[build(c) for c in r["c"]])
     if k == "tf":
+        if r.get("as") == "str":
+            return TFStr(r["c"], r.get("ret", "list"))
+        if r.get("as") == "meta":
+            return LazyMeta(r["c"], r.get("ret", "list"))
+        if r.get("as") == "flaky":
+            return FlakyTF(r["c"], r.get("ret", "list"))
         return TF(r["c"], r.get("ret", "list"))
     if k == "tfobj":
         return TFObj(r["c"], r.get("ret", "list"), r["s"])
